@@ -1146,4 +1146,83 @@ example :
     let c := canon wkEnv wkG 3
     w.pointer = 3 ∧ w.pool = [] ∧ w.U = c.U ∧ w.total = c.total ∧ w.ZU = c.ZU := by decide
 
+-- ================================================================== the invariant "state = canonical state + pool"
+
+theorem applyPool_snoc (e : Env) (l : List Nat) (i : Nat) (s : St) :
+    applyPool e (l ++ [i]) s = applyTx (applyPool e l s) (e.tx i) := by
+  unfold applyPool; rw [List.foldl_append]; rfl
+
+/-- one admission keeps "the state refines `C` with the pool applied in admission order" -/
+theorem doTx_keeps_pool_form (e : Env) (C st : St) (lh : Int) (i : Nat)
+    (h : TRefines st (applyPool e st.pool C)) :
+    TRefines (doTx e st lh i).1 (applyPool e (doTx e st lh i).1.pool C) := by
+  unfold doTx
+  by_cases hc : st.pool.contains i = true
+  · rw [if_pos hc]; exact h
+  · rw [if_neg hc]
+    dsimp only
+    cases admitTx st lh (e.tx i) with
+    | ok =>
+      dsimp only
+      rw [applyPool_snoc]
+      exact (applyTx_trefines _ _ (e.tx i) h).of_tables ⟨rfl, rfl, rfl, rfl⟩ ⟨rfl, rfl, rfl, rfl⟩
+    | _ => exact h
+
+theorem foldl_doTx_keeps_pool_form (e : Env) (C : St) (lh : Int) (l : List Nat) (st : St)
+    (h : TRefines st (applyPool e st.pool C)) :
+    TRefines (l.foldl (fun st i => (doTx e st lh i).1) st)
+      (applyPool e (l.foldl (fun st i => (doTx e st lh i).1) st).pool C) := by
+  induction l generalizing st with
+  | nil => exact h
+  | cons i rest ih =>
+    simp only [List.foldl_cons]
+    exact ih _ (doTx_keeps_pool_form e C st lh i h)
+
+/-- **a successful walk re-establishes its own precondition at the destination**: under the hypotheses of
+`walk_canonical`, for a destination known under its id, the state after the walk points at `dest` and refines "the
+canonical state of `dest` with the (new) pool applied in admission order" — the form `walk_canonical` and
+`doTx_keeps_pool_form` start from, so walks and admissions can be chained -/
+theorem walk_invariant (e : Env) (s : St) (lh : Int) (dest : Nat) (g : St) (hpl : ParentLower e)
+    (hid : (e.block dest).id = dest)
+    (hok : (walk e s lh dest false).2 = true) (hinv : KVInv e g)
+    (hchain : ChainValid e (ancestors e (e.blocks.length + 1) s.pointer).reverse g)
+    (hpool : PoolValid e s.pool (canon e g s.pointer))
+    (hs : TRefines s (applyPool e s.pool (canon e g s.pointer))) :
+    (walk e s lh dest false).1.pointer = dest ∧
+    TRefines (walk e s lh dest false).1 (applyPool e (walk e s lh dest false).1.pool (canon e g dest)) := by
+  refine ⟨walk_reaches e s lh dest hpl hid hok, ?_⟩
+  obtain ⟨pre, h1, h2, h3⟩ := canon_split e g s.pointer dest hpl
+  rw [h1] at hchain
+  obtain ⟨c1, c2⟩ := chainValid_append e pre _ g hchain
+  rw [h2] at hpool hs
+  obtain ⟨s2, t1, t2, t3⟩ := walk_refines e s lh dest (replayChain e pre g) hok
+    (replayChain_KVInv e pre g c1 hinv) c2 hpool hs
+  rw [t3, h3]
+  apply foldl_doTx_keeps_pool_form
+  rw [t2]
+  exact t1
+
+example :
+    let w := (walk wkEnv wkS' 0 3 false).1
+    (wkEnv.block 3).id = 3 ∧ w.pointer = 3 ∧ w.pool = [] ∧ w.U = (applyPool wkEnv w.pool (canon wkEnv wkG 3)).U := by
+  decide
+
+-- ================================================================== what is NOT true of the raw recycle table
+
+/-- the raw form of `undo_apply_keys`: every row of the recycle table ZD is back -/
+def undo_apply_ZD_statement : Prop :=
+  ∀ (e : Env) (s : St) (lh : Int) (t : Tx), admitTx s lh t = .ok → e.tx t.id = t → KVInv e s → koutDistinct t →
+    kinDistinct t → ∀ key, lookup (undoTx e (applyTx s t) t).ZD key = lookup s.ZD key
+
+/-- it is false in the model: a marker that was hidden behind a live row is overwritten by a delete and removed by
+its undo (the reader never sees the difference: `undo_apply_keys`) -/
+theorem undo_apply_ZD_refuted : ¬ undo_apply_ZD_statement := by
+  intro h
+  have hk : KVInv kvEnv { ZU := [("a", (1, 0))], ZD := [("a", (9, 9)), ("b", (2, 0))] } := by
+    apply KVInv_of_rows <;> decide
+  have := h kvEnv { ZU := [("a", (1, 0))], ZD := [("a", (9, 9)), ("b", (2, 0))] } 0 (kvEnv.tx 3)
+    (by decide) (by decide) hk (by decide) (by decide) "a"
+  revert this
+  decide
+
 end XV.C01
